@@ -68,6 +68,9 @@ TEMPLATES = [
     {"cls": "resolution", "t": "from t\nselect {y = a + 1}\nfilter «zz» > y"},
     # an error whose span lies in the standard library (known): no file of the tree is named
     {"cls": "resolution", "t": "from t | take «1..2..3»", "known": "std-span", "check_tok": False},
+    {"cls": "resolution", "t": "from t | take «-1»", "known": "std-span", "check_tok": False},
+    {"cls": "resolution", "t": "from t | sort «-name»", "known": "std-span", "check_tok": False},
+    {"cls": "type", "t": "let f = func x<int> -> x\nfrom t | derive z = f «\"a\"»", "known": "std-span", "check_tok": False},
     # ---------------------------------------------------------------- type
     {"cls": "type", "t": "from t | take «a»"},
     {"cls": "type", "t": "from t | take «\"x\"»"},
@@ -92,3 +95,51 @@ TEMPLATES = [
     {"cls": "sql", "t": "from t | select {d = (date.to_text «\"%A %-d\"» d0)}", "target": "sql.sqlite"},
     {"cls": "sql", "t": "from t\nsort a\nderive {d = (date.to_text «\"%Y\"» d0)}"},
 ]
+
+
+# ---------------------------------------------------------------------------- generated: errors inside s-/f-strings
+ESCAPES = ["\\n", "\\t", "\\\\", "\\x41", "\\u{41}", "\\r"]
+PLAIN = ["x ", "ab", " = ", "1, ", "{{", "}}", "{a}", " ", "-"]
+NONASCII = ["é", "→"]
+
+
+def interp_templates(rng, n):
+    """n erroneous programs whose (first) error lies inside a hole of an s-/f-string: `{a +}` (syntax: the parser of
+    the string content reports the blank after `a`) or `{zz}` (resolution: unknown name).  Around the hole: plain text,
+    doubled braces, well-formed holes, escape sequences, escaped quotes, with 1 or 3 quote characters of either kind.
+    `known` = interp-rebase exactly when the unchanged tree's `span + 2` rebasing is wrong: three quotes, or an escape
+    before the hole."""
+    out = []
+    for _ in range(n):
+        k = rng.choice("sf")
+        qc = rng.choice(["\"", "'"])
+        ql = rng.choice([1, 1, 1, 3])
+        q = qc * ql
+
+        def pieces(m):
+            ps = []
+            for _ in range(m):
+                r = rng.random()
+                if r < 0.45:
+                    ps.append(("esc", rng.choice(ESCAPES + ["\\" + qc])))
+                elif r < 0.93:
+                    ps.append(("plain", rng.choice(PLAIN)))
+                else:
+                    ps.append(("nonascii", rng.choice(NONASCII)))
+            return ps
+        before = pieces(rng.choice([0, 0, 1, 2, 3]))
+        after = pieces(rng.choice([0, 1, 2, 3, 4]))
+        if rng.random() < 0.5:
+            hole, cls = "{a« »+}", "syntactic"
+        else:
+            hole, cls = "{«zz»}", "resolution"
+        content = "".join(p[1] for p in before) + hole + "".join(p[1] for p in after)
+        if ql == 3 and content.replace("«", "").replace("»", "").endswith(qc):
+            content += " "
+        src = "from t | select {a} | select {x = %s%s%s%s}" % (k, q, content, q)
+        d = {"cls": cls, "t": src, "interp": True, "gen": True,
+             "shape": {"quotes": ql, "esc_before": sum(1 for p in before if p[0] == "esc"), "esc_after": sum(1 for p in after if p[0] == "esc")}}
+        if ql == 3 or any(p[0] == "esc" for p in before):
+            d["known"] = "interp-rebase"
+        out.append(d)
+    return out
